@@ -66,7 +66,7 @@ func (f *Dotimes) Call(s *slip.Scope, args slip.List, depth int) slip.Object {
 		}
 		sym = slip.Symbol(strings.ToLower(string(sym)))
 		// The count form is evaluated in the enclosing scope, before the variable exists.
-		if i, ok2 := s.Eval(input[1], d2).(slip.Integer); ok2 {
+		if i, ok2 := firstValue(s.Eval(input[1], d2)).(slip.Integer); ok2 {
 			max = i.Int64()
 		} else {
 			slip.TypePanic(s, depth, "dotimes input count", input[1], "integer")
